@@ -84,6 +84,10 @@ func battery(clock string, embed, ext bool) *Scenario {
 		{Name: "p1", Imports: []string{"p2"}, Decl: true, SymSrc: true},
 		{Name: "p2", Imports: []string{"p3"}, HasC: true, TwoC: true, LinkLib: haveBz2},
 		{Name: "p3", HasC: true, CDef: true, HasH: true, Embed: embed, Ext: ext},
+		// a second importer of the shared leaf that nothing else leads to: whichever
+		// of p2 and p4 is fingerprinted second, only its own record of p3 can tell it
+		// that p3 changed
+		{Name: "p4", Imports: []string{"p3"}},
 	}
 	b := Step{K: "build"}
 	n := Step{K: "noop"} // a rebuild without any change: it reuses what the build before it left in the cache
